@@ -410,6 +410,9 @@ class PaneOptions:
 
 def _type_key(ty: t.Any) -> t.Any:
     # structural key of a type which, unlike typing's equality, keeps the order of union members
+    if isinstance(ty, tuple):
+        # a tuple type literal `(A, B)`: equal as a tuple whenever its members are equal as types
+        return (tuple, tuple(_type_key(a) for a in ty))
     args = t.get_args(ty)
     if not len(args):
         return ty
